@@ -28,7 +28,14 @@ import DdoModel.Examples.SopDp
   states), and repairs the recorded point; `RubFixedAdmissibleStmt` (stated): it is admissible on every valid state;
   `satAdd_eq_of_addC`, `rubFinalSat_eq_of_some`, `rub?_eq_of_rubFixed?` (**proved**): the bound of the repaired code (`rub?`,
   saturating addition of the distance from the position) is `rubFixed?` wherever that one does not overflow;
-* stated, not proved (`def … : Prop`), evaluated pointwise by the driver on every generated instance of the domain:
+* **now THEOREMS** (`SopProofsMain.lean`, summary; `SopProofsBase/Step/Merge/Conc/Tab/Rub/Exact/Wf.lean`), on every table the
+  reader builds from an instance of the input domain (`TabOk`, `DomOk`; `tabOk_tabOf`, `domOk_tabOf`: `inDomain`, at most 256
+  jobs, `isize` entries): `mergeOk : MergeOkStmt T`; `rubFixedAdmissible : RubFixedAdmissibleStmt T`, `rubAdmissible` (the
+  repaired `rub?`), `rubAdmissibleExact : RubAdmissibleExactStmt T`; `dpExact_partial : DpExactStmt n rows`, `root_exact`;
+  `wfRelV`, `noClamp`, `sop_relaxed_ub` (closed corollary against `Sop.spec`).  As stated for an ARBITRARY table / matrix the
+  three statements are false — kernel-checked witnesses, none reachable: `mergeOk_false_degenerate` (no `predecessors`
+  table), `rb_cex_refutes` (a last job without predecessors), `dpExact_false_unbounded` (an entry that is no `isize`);
+* stated (`def … : Prop`), evaluated pointwise by the driver on every generated instance of the domain:
   - `RubAdmissibleExactStmt`: on exact states (a previous job, no optional job) the rough bound dominates the value-to-go
     — holds on every generated point;
   - `RubAdmissibleStmt`: on every valid state the rough bound dominates the value-to-go of every exact state it stands for —
